@@ -11,6 +11,7 @@ import (
 	"os"
 	"os/exec"
 	"strings"
+	"sync/atomic"
 	"time"
 )
 
@@ -24,15 +25,23 @@ type Solver struct {
 	declared  map[string]bool
 	buf       strings.Builder
 	// stats
-	Queries   int
-	Sat       int
-	Unsat     int
-	Unknown   int
-	Errors    int
-	Time      time.Duration
-	LastError string
-	log       io.Writer
+	Queries    int
+	Sat        int
+	Unsat      int
+	Unknown    int
+	Errors     int
+	Time       time.Duration
+	LastError  string
+	Fallbacks  int
+	feasMs     int
+	curMs      int
+	vars       []*Term
+	log        io.Writer
+	transcript strings.Builder
 }
+
+var dumpDir = os.Getenv("SYMX_DUMP_UNKNOWN")
+var dumpSeq int32
 
 func NewSolver(bin string, timeoutMs int) (*Solver, error) {
 	s := &Solver{bin: bin, timeoutMs: timeoutMs}
@@ -88,13 +97,16 @@ func (s *Solver) flush() {
 	if s.log != nil {
 		io.WriteString(s.log, s.buf.String())
 	}
+	s.transcript.WriteString(s.buf.String())
 	io.WriteString(s.in, s.buf.String())
 	s.buf.Reset()
 }
 
 func (s *Solver) Reset() {
+	s.transcript.Reset()
 	s.defined = map[int]bool{}
 	s.declared = map[string]bool{}
+	s.vars = nil
 	s.send("(reset)")
 	if !strings.Contains(s.bin, "cvc5") {
 		s.send(fmt.Sprintf("(set-option :timeout %d)", s.timeoutMs))
@@ -111,6 +123,7 @@ func (s *Solver) define(t *Term) string {
 	case "var":
 		if !s.declared[t.Name] {
 			s.declared[t.Name] = true
+			s.vars = append(s.vars, t)
 			s.send(fmt.Sprintf("(declare-const %s %s)", smtName(t.Name), t.Sort))
 		}
 		return smtName(t.Name)
@@ -185,14 +198,29 @@ func (s *Solver) readUntilMarker() []string {
 
 // Check: is (current assertions ∧ extra...) satisfiable? extra are asserted inside push/pop.
 // If wantModel != nil and the result is sat, values of those terms are returned.
+// CheckFeas is Check with the (shorter) feasibility timeout.
+func (s *Solver) CheckFeas(extra []*Term, wantModel []*Term) (SatResult, map[string]string) {
+	if s.feasMs > 0 && s.feasMs < s.timeoutMs && !strings.Contains(s.bin, "cvc5") {
+		s.send(fmt.Sprintf("(set-option :timeout %d)", s.feasMs))
+		s.curMs = s.feasMs
+		r, m := s.Check(extra, wantModel)
+		s.send(fmt.Sprintf("(set-option :timeout %d)", s.timeoutMs))
+		s.curMs = s.timeoutMs
+		return r, m
+	}
+	return s.Check(extra, wantModel)
+}
+
 func (s *Solver) Check(extra []*Term, wantModel []*Term) (SatResult, map[string]string) {
 	refs := make([]string, 0, len(extra))
 	for _, e := range extra {
 		refs = append(refs, s.define(e))
 	}
 	var mrefs []string
-	for _, m := range wantModel {
-		mrefs = append(mrefs, s.define(m))
+	if wantModel != nil {
+		for _, m := range s.vars {
+			mrefs = append(mrefs, smtName(m.Name))
+		}
 	}
 	s.send("(push 1)")
 	for _, r := range refs {
@@ -226,6 +254,22 @@ func (s *Solver) Check(extra []*Term, wantModel []*Term) (SatResult, map[string]
 		fmt.Fprintln(os.Stderr, "SOLVER ERROR:", s.LastError)
 	}
 	var model map[string]string
+	if res == RUnknown && !strings.Contains(s.LastError, "solver died") {
+		// incremental mode weakens z3's non-linear reasoning: retry the same query one-shot
+		if r2, m2, ok := s.oneShot(mrefs); ok {
+			res = r2
+			model = m2
+			s.Fallbacks++
+			s.send("(pop 1)")
+			switch res {
+			case RSat:
+				s.Sat++
+			case RUnsat:
+				s.Unsat++
+			}
+			return res, model
+		}
+	}
 	if res == RSat && len(mrefs) > 0 {
 		s.send("(get-value (" + strings.Join(mrefs, " ") + "))")
 		s.send("(echo \"" + marker + "\")")
@@ -241,6 +285,12 @@ func (s *Solver) Check(extra []*Term, wantModel []*Term) (SatResult, map[string]
 		s.Unsat++
 	default:
 		s.Unknown++
+		if dumpDir != "" {
+			n := atomic.AddInt32(&dumpSeq, 1)
+			if n <= 20 {
+				os.WriteFile(fmt.Sprintf("%s/unknown-%d.smt2", dumpDir, n), []byte(s.transcript.String()), 0o644)
+			}
+		}
 		if strings.Contains(s.LastError, "solver died") {
 			s.Close()
 			s.start()
@@ -350,4 +400,82 @@ func parseGetValue(out string, refs []string) map[string]string {
 		}
 	}
 	return m
+}
+
+// oneShot re-runs the current query (everything sent since the last reset, earlier check-sats
+// removed) in fresh solver processes: z3-new first, then z3 4.8.12.
+func (s *Solver) oneShot(mrefs []string) (SatResult, map[string]string, bool) {
+	lines := strings.Split(s.transcript.String(), "\n")
+	last, start := -1, 0
+	for i, l := range lines {
+		if l == "(check-sat)" {
+			last = i
+		}
+		if l == "(reset)" {
+			start = i + 1
+		}
+	}
+	if last < 0 {
+		return RUnknown, nil, false
+	}
+	var sb strings.Builder
+	for i, l := range lines {
+		if i < start {
+			continue
+		}
+		if strings.HasPrefix(l, "(set-option :timeout") || strings.HasPrefix(l, "(echo") || l == "(reset)" || strings.HasPrefix(l, "(get-value") {
+			continue
+		}
+		if l == "(check-sat)" && i != last {
+			continue
+		}
+		if i > last {
+			break
+		}
+		sb.WriteString(l)
+		sb.WriteByte('\n')
+	}
+	if len(mrefs) > 0 {
+		sb.WriteString("(get-value (" + strings.Join(mrefs, " ") + "))\n")
+	}
+	f, err := os.CreateTemp("", "symx-oneshot-*.smt2")
+	if err != nil {
+		return RUnknown, nil, false
+	}
+	defer os.Remove(f.Name())
+	f.WriteString(sb.String())
+	f.Close()
+	ms := s.timeoutMs
+	if s.curMs > 0 {
+		ms = s.curMs
+	}
+	secs := ms/1000 + 1
+	for _, bin := range []string{"z3-new", "z3"} {
+		t0 := time.Now()
+		out, _ := exec.Command(bin, fmt.Sprintf("-T:%d", secs), f.Name()).CombinedOutput()
+		s.Time += time.Since(t0)
+		txt := string(out)
+		if os.Getenv("SYMX_DEBUG_ONESHOT") != "" {
+			fmt.Fprintf(os.Stderr, "oneshot %s -> %q (%.1fs)\n", bin, strings.SplitN(txt, "\n", 2)[0], time.Since(t0).Seconds())
+		}
+		if strings.Contains(txt, "(error") {
+			continue
+		}
+		first := strings.TrimSpace(strings.SplitN(txt, "\n", 2)[0])
+		switch first {
+		case "unsat":
+			return RUnsat, nil, true
+		case "sat":
+			var model map[string]string
+			if len(mrefs) > 0 {
+				rest := ""
+				if i := strings.Index(txt, "\n"); i >= 0 {
+					rest = txt[i+1:]
+				}
+				model = parseGetValue(rest, mrefs)
+			}
+			return RSat, model, true
+		}
+	}
+	return RUnknown, nil, false
 }
